@@ -17,6 +17,8 @@ func tlaDigits(d []int) string {
 	return "<<" + strings.Join(s, ", ") + ">>"
 }
 
+func init() { register("params", runParams) }
+
 func runParams(args []string) {
 	fmt.Println("---------------------------- MODULE FieldParams ----------------------------")
 	fmt.Println("(* Frozen parameters of the 23 prime fields: modulus q (BigNat digits), word size and   *)")
